@@ -172,6 +172,22 @@ func runC02(c *core.Ctx) {
 			c02Tree(c, t, false)
 		}
 		idx++
+		// the same tree with every "$ref" key written with an escape ("\u0024ref" in JSON, "\x24ref" in double-quoted YAML):
+		// the same document for any parser, so the same objects must be reached
+		if c.Mine(idx) {
+			c02Tree(c, c02EscapedKeys(t), false)
+		}
+		idx++
+	}
+	for _, t := range c02SameTextManySites() {
+		if c.Mine(idx) {
+			c02Tree(c, t, false)
+		}
+		idx++
+		if c.Mine(idx) {
+			c02Tree(c, c02EscapedKeys(t), false)
+		}
+		idx++
 	}
 	for _, t := range c02Negative() {
 		if c.Mine(idx) {
@@ -1115,4 +1131,56 @@ func c02RemoteHosts(c *core.Ctx) {
 			}
 		}
 	}
+}
+
+// c02EscapedKeys rewrites every file of a tree so that the key "$ref" is spelt with an escape sequence.
+func c02EscapedKeys(t refTree) refTree {
+	out := refTree{Root: t.Root, Files: map[string]string{}, External: t.External}
+	for p, content := range t.Files {
+		if strings.HasSuffix(p, ".yaml") || strings.HasSuffix(p, ".yml") {
+			content = strings.ReplaceAll(content, "\"$ref\":", "\"\\x24ref\":")
+			content = strings.ReplaceAll(content, "$ref:", "\"\\x24ref\":")
+		} else {
+			content = strings.ReplaceAll(content, "\"$ref\":", "\"\\u0024ref\":")
+		}
+		out.Files[p] = content
+	}
+	for _, pl := range t.Plans {
+		pl.Spelling += "+escaped-key"
+		out.Plans = append(out.Plans, pl)
+	}
+	return out
+}
+
+// c02SameTextManySites: one reference text standing at several sites of one document (and a second text into the same
+// file at others), for a root at an absolute location naming the library by absolute path, and for relative ones.
+func c02SameTextManySites() []refTree {
+	var out []refTree
+	byName := map[string]refPosition{}
+	for _, p := range refPositions() {
+		byName[p.name] = p
+	}
+	lib := gen.S{"openapi": "3.0.3", "info": gen.S{"title": "lib", "version": "1"}, "paths": gen.S{},
+		"components": gen.S{"schemas": gen.S{"T": gen.S{"type": "string", "title": "MARKSAMET"}, "U": gen.S{"type": "integer", "title": "MARKSAMEU"}}}}
+	for _, v := range []struct{ rootDir, libPath, prefix, spelling string }{
+		{"/abs/w", "/abs/lib/t.json", "/abs/lib/t.json", "absolute"},
+		{"/abs/w", "/abs/lib/t.json", "../lib/t.json", "dot-dot"},
+		{"w", "w/lib/t.json", "lib/t.json", "plain"},
+		{"w", "w/lib/t.json", "./lib/t.json", "dot-slash"},
+	} {
+		root := refRootSkeleton()
+		var plans []refPlan
+		for i, pos := range []string{"components.schemas.Site", "schema.properties.p", "schema.items", "schema.allOf[0]", "schema.oneOf[1]", "schema.anyOf[0]", "schema.not", "schema.additionalProperties"} {
+			target, marker := "T", "MARKSAMET"
+			if i%3 == 2 {
+				target, marker = "U", "MARKSAMEU"
+			}
+			ref := v.prefix + "#/components/schemas/" + target
+			byName[pos].plant(root, gen.S{"$ref": ref})
+			plans = append(plans, refPlan{Position: pos, Kind: "schema", Form: "fragment", Shape: "same-text-at-several-sites", Spelling: v.spelling, Ref: ref, Marker: marker})
+		}
+		rootPath := path.Join(v.rootDir, "root.json")
+		out = append(out, refTree{Root: rootPath, Files: map[string]string{rootPath: mustJSON(root), v.libPath: mustJSON(lib)}, Plans: plans, External: true})
+	}
+	return out
 }
